@@ -57,10 +57,10 @@ STEMS = ["vol", "emd_1234", "membrane", "a.em", "mrc_avg", "x.mrc", "tomo.rec", 
 
 def plan(tier):
     if tier == "quick":
-        return dict(n_cases=30 * len(CLASSES), shards=2, classes=CLASSES, timeout_s=600,
-                    min_evals={"write_bytes": 2500, "read_matches_bytes": 2500, "roundtrip": 1800, "raw_read": 600,
-                               "convert_voxels": 450, "overwrite_refusal": 60},
-                    min_anchor_calls={"cryomap.em2mrc": 150, "cryomap.mrc2em": 150})
+        return dict(n_cases=50 * len(CLASSES), shards=2, classes=CLASSES, timeout_s=600,
+                    min_evals={"write_bytes": 3800, "read_matches_bytes": 5500, "roundtrip": 3000, "raw_read": 1600,
+                               "convert_voxels": 780, "overwrite_refusal": 120},
+                    min_anchor_calls={"cryomap.em2mrc": 300, "cryomap.mrc2em": 300})
     return dict(n_cases=500 * len(CLASSES), shards=16, classes=CLASSES, timeout_s=3000,
                 min_evals={"write_bytes": 40000, "read_matches_bytes": 40000, "roundtrip": 30000, "raw_read": 10000,
                            "convert_voxels": 7500, "overwrite_refusal": 1000},
@@ -307,7 +307,8 @@ def _roundtrips(ctx, case, d):
         if case["invert_contrast"] and ext == case["exts"][case["i"] % 3]:
             # anchored workload: its inner read and write are judged by the call monitors; no verdict of its own
             try:
-                cm.invert_contrast(path, output_name=os.path.join(d, "inv" + [".em", ".mrc", ".rec"][case["i"] % 3]))
+                src = case["arr"] if (case["arr"].dtype == np.float64 and case["i"] % 4 == 1) else path
+                cm.invert_contrast(src, output_name=os.path.join(d, "inv" + [".em", ".mrc", ".rec"][case["i"] % 3]))
             except Exception:
                 pass
             ctx.ood("workload:invert_contrast")
@@ -347,10 +348,10 @@ def _negated(X):
 def _intmin_wrap_only(out_xyz, X, invert):
     """mechanism classifier of the open finding: right shape, and every differing voxel is the integer type's minimum
     in the source and still that minimum in the output (negation wrapped around)."""
-    if not invert or X.dtype.kind != "i" or out_xyz.shape != X.shape or out_xyz.dtype.kind != "i":
+    if not invert or X.dtype.kind != "i" or out_xyz.shape != X.shape:
         return False
     lo = np.iinfo(X.dtype).min
-    o, e = out_xyz.astype(np.int64), _negated(X)
+    o, e = out_xyz.astype(np.float64), _negated(X).astype(np.float64)
     bad = o != e
     return bool(bad.any() and np.all(X[bad] == lo) and np.all(o[bad] == lo))
 
